@@ -856,6 +856,9 @@ class StoryMove(MosFile):
                 f"{self.__class__.__name__} error in {self.message_id} - source story not found"
             )
         remove_node(parent=ro.base_tag, node=source_story)
+        if source_index < target_story_index:
+            # removing the source story has shifted the target up by one
+            target_story_index -= 1
         insert_node(parent=ro.base_tag, node=source_story, index=target_story_index)
         return ro
 
@@ -952,14 +955,18 @@ class ItemMoveMultiple(MosFile):
                     f"{self.__class__.__name__} error in {self.message_id} - target item not found"
                 )
 
-        for i, item in enumerate(self.items, start=target_item_index):
+        for item in self.items:
             source_item, source_item_index = find_child(parent=story, child_tag='item', id=item.id)
             if source_item_index is None:
                 raise MosMergeError(
                     f"{self.__class__.__name__} error in {self.message_id} - source item not found"
                 )
             remove_node(parent=story, node=source_item)
-            insert_node(parent=story, node=source_item, index=i)
+            if source_item_index < target_item_index:
+                # removing the source item has shifted the target up by one
+                target_item_index -= 1
+            insert_node(parent=story, node=source_item, index=target_item_index)
+            target_item_index += 1
 
         return ro
 
@@ -1888,7 +1895,11 @@ class EAStoryMove(ElementAction):
                     f"{self.__class__.__name__} error in {self.message_id} - source story not found"
                 )
             remove_node(parent=ro.base_tag, node=story)
+            if source_index < target_story_index:
+                # removing the source story has shifted the target up by one
+                target_story_index -= 1
             insert_node(parent=ro.base_tag, node=story, index=target_story_index)
+            target_story_index += 1
         return ro
 
     def inspect(self):
@@ -1958,14 +1969,18 @@ class EAItemMove(ElementAction):
             raise MosMergeError(
                 f"{self.__class__.__name__} error in {self.message_id} - target item not found"
             )
-        for i, source_item in enumerate(self.items, start=target_item_index):
+        for source_item in self.items:
             item, item_index = find_child(parent=story, child_tag='item', id=source_item.id)
             if item is None:
                 raise MosMergeError(
                     f"{self.__class__.__name__} error in {self.message_id} - source item not found"
                 )
             remove_node(parent=story, node=item)
-            insert_node(parent=story, node=item, index=i)
+            if item_index < target_item_index:
+                # removing the source item has shifted the target up by one
+                target_item_index -= 1
+            insert_node(parent=story, node=item, index=target_item_index)
+            target_item_index += 1
         return ro
 
     def inspect(self):
